@@ -137,7 +137,8 @@ def curves(draw, pmin=0, pmax=4, kmax=4, rational=None, dim=None, nums=("frac",)
     if regimes and num in ("frac", "fracint") and draw(st.integers(0, 7)) == 0:
         # numeric regimes, exact profile only: knots around +-1e6, very short / very long parameter intervals,
         # control points around 1e8 or 1e-8 (float profiles stay well conditioned on purpose)
-        a0, sc = draw(st.sampled_from([(F(10 ** 6), F(1)), (F(-10 ** 6), F(1000)), (F(0), F(1, 1000)), (F(0), F(10 ** 5))]))
+        a0, sc = draw(st.sampled_from([(F(10 ** 6), F(1)), (F(-10 ** 6), F(1000)), (F(0), F(1, 1000)), (F(0), F(10 ** 5)),
+                                        (F(17 * 10 ** 8), F(1)), (F(-10 ** 12), F(1))]))  # (time stamps)
         U = [a0 + sc * u for u in U]
         # tiny control points only on request ("all"): operations that accept a removal within the library's
         # absolute 1e-9 tolerance (clean, knot_remove, degree_decrease, join, derivative) legitimately smooth them
@@ -287,7 +288,7 @@ def same_interval_pair(draw, pmax=3, kmax=3, grid=12, alike=False):
 
 
 @st.composite
-def special_rational(draw, Ulow, plow, Uhigh, phigh, dim=None):
+def special_rational(draw, Ulow, plow, Uhigh, phigh, dim=None, function_kinds=False):
     """A rational curve case on (Uhigh, phigh) - a refinement of (Ulow, plow) - in which only *part* of the
     homogeneous representation lives in the low space: the weight function alone, or the numerator alone, or
     constant weights.  Such curves are (generically) NOT reducible, but a projection that looks at the weights
@@ -297,7 +298,27 @@ def special_rational(draw, Ulow, plow, Uhigh, phigh, dim=None):
     nlow, nhigh = len(Ulow) - plow - 1, len(Uhigh) - phigh - 1
     if dim is None:
         dim = draw(st.sampled_from([0, 0, 2]))
-    kind = draw(st.sampled_from(["weights-in-low-space", "numerator-in-low-space", "weights-constant"]))
+    kind = draw(st.sampled_from(["weights-in-low-space", "numerator-in-low-space", "weights-constant"] +
+                                (["function-piecewise-constant"] * 2 if function_kinds else [])))
+    if kind == "function-piecewise-constant":
+        # The *function* is reducible although neither numerator nor weight function is: pieces separated by knots of
+        # full multiplicity, all control points of a piece equal (the weights then cancel on that piece), any weights.
+        # Neighbouring pieces with the same value make the knot between them removable for the curve only.
+        bk = breaks_of(Ulow)
+        a, b = bk[0], bk[-1]
+        phigh = draw(st.sampled_from([0, 0, phigh]))  # written at degree 0 (weights are then plain labels) or higher
+        npieces = draw(st.integers(1, 3))
+        cuts = [a + (b - a) * t for t in sorted(draw(st.lists(st.sampled_from([F(1, 4), F(1, 3), F(1, 2), F(3, 5), F(4, 5)]),
+                                                            min_size=npieces - 1, max_size=npieces - 1, unique=True)))]
+        U = [a] * (phigh + 1)
+        for z in cuts:
+            U += [z] * (phigh + 1)
+        U += [b] * (phigh + 1)
+        alphabet = st.sampled_from([F(5), F(5), F(-2), F(1, 2)])
+        vals = [draw(alphabet) if dim == 0 else [draw(alphabet) for _ in range(dim)] for _ in range(npieces)]
+        P = [vals[j] if dim == 0 else list(vals[j]) for j in range(npieces) for _ in range(phigh + 1)]
+        W = draw(pos_weights(len(P)))
+        return {"U": U, "p": phigh, "P": P, "w": W, "num": "frac"}, kind
     if kind == "weights-in-low-space":
         wl = draw(pos_weights(nlow))
         W = [x[0] for x in oracle.refine_state(State(Ulow, plow, [(w,) for w in wl], None, True), Uhigh, phigh).P]
